@@ -68,11 +68,11 @@ CHECKS = {
     technique="contract-based deductive verification of the Torch and JAX solver loops against the shared spec + bounded contract checking of every backend against the spec",
     engine="pyvc", rtc=True),
  "C05": dict(
-    level=("exploration", "Bounded: seeded random expression trees in four renderings through both evaluation paths (generated code of a one-equation "
+    level=("other", "Deductive (small core): check_vname refuses exactly the reserved names / name parts, for every string. Bounded: seeded random expression trees in four renderings through both evaluation paths (generated code of a one-equation "
             "operator, ExpressionParser+eval_node incl. re-evaluation after set_value) against a tree evaluator that never parses a string; a fixed "
             "table of vector/matrix expressions with the index helpers.", "5 C05"),
     note="Trusted: rtc.mdl.ev/to_str (self-tested against Python evaluation). The parser (sympify/lambdify/str rewriting) is out of deductive reach.",
-    technique="bounded contract checking of both evaluation paths against a tree evaluator", engine="rtc", rtc=True),
+    technique="contract-based deductive verification of check_vname (pyvc, strings) + bounded contract checking of both evaluation paths against a tree evaluator", engine="pyvc", rtc=True),
  "C06": dict(
     level=("exploration", "Bounded: the DataFrame returned by run() column by column (labels, one column per requested variable, values equal the "
             "per-variable reference trajectory) for dict/list/wildcard requests, hierarchy, permuted node declarations, vectorize on/off; the same "
